@@ -1389,7 +1389,7 @@ RACE_PREFIXES = [
 ]
 
 
-RACE_COPS = [("read", 1), ("read", 3), ("read", 16), ("seek", 0), ("seek", 1)]
+RACE_COPS = [("read", 2), ("read", 16), ("seek", 0), ("read", 1), ("seek", 1)]
 
 
 def race_cases(kmax, cops):
@@ -1402,11 +1402,11 @@ def race_cases(kmax, cops):
                         for cop in cops:
                             ops = list(prefix) + [("race", first, k, cop)]
                             ops += [("seek", 0), ("prot", False)]
-                            for _ in range(40 // block + 4):
+                            for _ in range(24 // block + 3):
                                 ops += [("download",), ("read", size)]
                             ops += [("read", size)]
                             yield {"kind": "race", "size": size, "head": head, "prot": prot, "block": block, "meta": 0,
-                                   "audio": 40, "metas": [0], "caps": [], "cut_after_audio": False, "len": 40,
+                                   "audio": 24, "metas": [0], "caps": [], "cut_after_audio": False, "len": 24,
                                    "ops": ops, "complete": True}
 
 
@@ -1606,7 +1606,10 @@ def evaluate(ctx, case, origin, coq_items):
              sample={"kind": case["kind"], "size": case["size"], "headroom": case["head"], "protected": case["prot"],
                      "source_len": case["len"], "ops": [list(o) for o in ops[:14]],
                      "returned": [o["res"][1] if o["res"][0] == "data" else o["res"][-1] for o in obs[:14]]})
-    coq_items.append((case, ops, obs))
+    # quick tier: the exhaustive tiny-buffer histories are all judged by the oracle, every second one is also
+    # compared with the model in Coq (they share prefixes heavily); thorough compares all of them
+    if ctx.thorough or origin != "exhaustive" or case["kind"] == "race" or ctx.evaluations % 2 == 0 or err:
+        coq_items.append((case, ops, obs))
 
 
 def tuple_deep(x):
@@ -1655,6 +1658,7 @@ def coq_compare(ctx, all_items, per=700):
 
 def run(ctx):
     ctx.build_property()
+    ctx.note("coq build done %.1fs" % (__import__("time").time() - ctx.t0))
     if ctx.thorough:
         ctx.coqchk()
     rng = ctx.rng
@@ -1709,13 +1713,14 @@ def run(ctx):
         evaluate(ctx, case, "generated", coq_items)
     # 6. two threads on one buffer: one turn of the download loop raced with one reader operation at every
     #    scheduling point (every load/store of the buffer's mutable attributes), from several buffer states
-    for case in race_cases(20, RACE_COPS if ctx.thorough else RACE_COPS[:4]):
+    for case in race_cases(20, RACE_COPS if ctx.thorough else RACE_COPS[:3]):
         evaluate(ctx, case, "exhaustive", coq_items)
-    for j in range(120 * mult):
+    for j in range(90 * mult):
         evaluate(ctx, gen_race_case(rng, *RACE_CONFIGS[j % len(RACE_CONFIGS)]), "generated", coq_items)
     # constructor guard
     for (size, head) in ((1, 2), (0, 1), (4, 5)):
         evaluate(ctx, {"kind": "buf", "size": size, "head": head, "prot": False, "len": 0, "ops": []}, "ctor", coq_items)
+    ctx.note("implementation runs done: %d histories, %d to compare in Coq, %.1fs" % (ctx.evaluations, len(coq_items), __import__("time").time() - ctx.t0))
     real_reader_cross_check(ctx, 200 if ctx.thorough else 40)
     ctx.traces = len(coq_items)
     ctx.rule = ("operation histories (read/seek/protect for the wrappers; add/get/seek/protect/fits for the buffer) "
